@@ -96,9 +96,15 @@ where
     let mut buf = Vec::new();
 
     while read_line(&mut reader, &mut buf).await? != 0 {
-        parser
+        let entry = parser
             .parse_partial(&buf)
             .map_err(|e| io::Error::new(io::ErrorKind::InvalidData, e))?;
+
+        // The header ends with the `#CHROM` line. A following line that starts with '#' is a
+        // record (its reference sequence name starts with '#'), not a header line.
+        if matches!(entry, header::parser::Entry::Header) {
+            break;
+        }
     }
 
     parser
